@@ -132,7 +132,7 @@ class Gen:
 def nullable(n):
     op = n["op"]
     if op == "lit": return n["s"] == "" and n["t"] == ""   # "" matches EOF without consuming
-    if op in ("ref", "neg", "prod", "union", "user", "user2"): return False  # prods are made non-nullable below
+    if op in ("ref", "neg", "prod", "union", "user", "user2", "user3"): return False  # prods are made non-nullable below
     if op == "look": return True
     if op == "seq": return all(nullable(k) for k in n["kids"])
     if op == "alt": return any(nullable(k) for k in n["kids"])
@@ -176,7 +176,7 @@ def render(n, out):
             # a suffix modifier directly after a bracket group: { x }!  [ x ]+
             render(k, out)
             out[-1] = out[-1] + mod
-        elif n["mode"] != "once" and k["op"] == "cap" and (k["kid"]["op"] in ("lit", "ref", "prod", "union", "user", "user2") or (k["kid"]["op"] == "grp" and k["kid"]["mode"] == "once")):
+        elif n["mode"] != "once" and k["op"] == "cap" and (k["kid"]["op"] in ("lit", "ref", "prod", "union", "user", "user2", "user3") or (k["kid"]["op"] == "grp" and k["kid"]["mode"] == "once")):
             # a modifier applied directly to a capture: @Ident*  @@?  @( A B )+   (= group{mode, capture{...}})
             render(k, out)
             out[-1] = out[-1] + mod
@@ -188,7 +188,7 @@ def render(n, out):
     elif op == "cap":
         out.append(("@", n["f"]))
         k = n["kid"]
-        if k["op"] in ("prod", "union", "user", "user2"):
+        if k["op"] in ("prod", "union", "user", "user2", "user3"):
             out.append("@")
         elif k["op"] in ("lit", "ref"):
             render(k, out)
@@ -295,6 +295,7 @@ def sample(n, prods, unions, rng, depth):
     if op == "neg": return [rng.choice(["z", "a", "7", "("])]
     if op == "user": return [rng.choice(["z", "x", "7", "("])]
     if op == "user2": return [rng.choice(["z", "x"])]
+    if op == "user3": return [rng.choice(["z", "x", "7"]), "!"]
     if op == "look": return []
     raise ValueError(op)
 
